@@ -550,6 +550,10 @@ pub fn admissible(prog: &Program, config: &CircuitConfig, with_pis: bool) -> boo
     {
         return false;
     }
+    // `split_le_base::<4>` of 32 limbs hands out limb wires 1..=32; using them (connect) needs them routable
+    if config.num_routed_wires < 33 && uses("split_base4") {
+        return false;
+    }
     if config.num_wires < 66 && (uses("range") || uses("random_access") || uses("lookup") || uses("merkle") || uses("split_base4")) {
         return false;
     }
